@@ -544,6 +544,17 @@ func (r *runner) runCase(w *world, u *unit, k int, dir string, depth int) (stack
 		"callback-call": "Go->Call->guest->host", "callback-stack": "Go->CallWithStack->guest->host",
 		"reexport-call": "Go->Call->host(re-export)", "reexport-stack": "Go->CallWithStack->host(re-export)"}[dir]
 	r.cmpParams(w, u, u, dir, k, step, pv, w.log[0].obs)
+	if w.b.lm != lmNone {
+		if !strings.HasPrefix(dir, "callback") {
+			r.checkListener(w, u, dir, k, want, [][]uint64{pv}, [][]uint64{rv}, pv, res)
+		} else if w.cbDone {
+			inner := make([]uint64, len(R))
+			for j, t := range R {
+				inner[j] = mask(t, w.cbInner[j])
+			}
+			r.checkListener(w, u, dir, k, want, [][]uint64{pv, w.log[0].obs}, [][]uint64{inner, rv}, pv, res)
+		}
+	}
 	switch {
 	case dir == "const" || dir == "deep-const":
 		// in-guest comparison verdicts
